@@ -51,8 +51,12 @@ let () =
     | id :: "E" :: _ ->
       let h = if id = !cur_id then List.rev !cur else [] in
       cur_id := ""; cur := [];
-      let out = (match check h with
-        | Lin -> (match check_witness h with
+      (* the verdict comes from the memoised checker (mcheck = check, Lin/MemoProofs.v); with VERIF_LIN_EXHAUSTIVE
+         set, the exhaustive one is used instead. The witness order is printed for short histories only. *)
+      let verdict = if Sys.getenv_opt "VERIF_LIN_EXHAUSTIVE" <> None then check h else mcheck h in
+      let out = (match verdict with
+        | Lin -> if List.length h > 60 then "lin -" else
+                 (match check_witness h with
                   | Some w -> "lin " ^ String.concat "," (List.map (fun i -> string_of_int (int_of_nat i)) w)
                   | None -> "lin ?")
         | NonLin -> "nonlin"
